@@ -118,8 +118,12 @@ func c14Corpus(sc *Scenario) *Outcome {
 		kind = "geometric"
 	}
 	script := dumpScript(r, kind, data, nil)
-	lr := loadVia(data, script, "x", false)
-	o.Hash = hash64(e.File) ^ hash64(kind)
+	// a stored file reaches the loader through whatever the deployment opens it with: a plain
+	// reader, a file (Stat), a pipe (Stat: size 0), a queue (Len) - see readerkinds.go
+	rkind := int(uint64(sc.Int("pseed", 1)) % uint64(rkCount))
+	lr := loadInto(data, script, "x", false, false, rkind)
+	o.fault("reader_kind:"+readerKindName[rkind], 1)
+	o.Hash = hash64(e.File) ^ hash64(kind) ^ uint64(rkind)<<32
 	o.Nontrivial = true
 	for _, f := range e.Features {
 		o.probe("corpus."+f, 1)
@@ -130,7 +134,7 @@ func c14Corpus(sc *Scenario) *Outcome {
 		return o
 	}
 	if lr.Err != nil {
-		o.viol("C14", "corpus", "load fails:"+e.File, what+": LoadProg failed: "+lr.Err.Error(), sc)
+		o.viol("C14", "corpus", "load fails:"+e.File, what+" through a "+readerKindName[rkind]+": LoadProg failed: "+lr.Err.Error(), sc)
 		return o
 	}
 	ex := Exec(lr.Prog, lr.Out, lr.Log, 0)
